@@ -59,12 +59,19 @@ Definition target_host (akind : N) : option host :=
   | 13 => Some (HostV6 (65535 * 2^32 + ip_10))                               (* ::ffff:10.99.0.1 *)
   | 14 => Some (HostV6 (65535 * 2^32 + ip_203))                              (* ::ffff:203.0.113.77 *)
   | 15 => Some (HostDomain [50;48;51;46;48;46;49;49;51;46;55;55])          (* "203.0.113.77" *)
+  | 16 => Some (HostDomain (map (fun i => 97 + N.of_nat i mod 26) (seq 0 255)))  (* 255 bytes: no such host *)
   | _ => None
   end.
 Definition target_addr (akind port : N) : bytes :=
   match target_host akind with
   | Some h => encode_addr {| sa_host := h; sa_port := port |}
-  | None => [9; 1; 2; 3; 4; 5; 6]
+  | None =>
+      match akind with
+      | 17 => [1; 127; 0]                 (* truncated IPv4 *)
+      | 18 => [3; 200; 97; 98]            (* truncated domain *)
+      | 19 => [0; 1; 2; 3; 4; 5; 6]       (* type 0 *)
+      | _ => [9; 1; 2; 3; 4; 5; 6]
+      end
   end.
 (* the address a reply from this target comes from (the socket the sink is bound to) *)
 Definition target_ip (akind : N) : ip :=
@@ -75,6 +82,7 @@ Definition target_ip (akind : N) : ip :=
   end.
 (* net.ResolveUDPAddr on the domain names the harness uses *)
 Definition resolve (d : bytes) : option ip :=
+  if (length d =? 255)%nat then None else
   if bytes_eqb d [50;48;51;46;48;46;49;49;51;46;55;55] then Some (V4 ip_203) else Some (V4 (v4 127 0 0 1)).
 
 Definition the_uenv (validate : bool) : uenv := {| ue_validate := validate; ue_resolve := resolve |}.
